@@ -448,6 +448,65 @@ def rule_R13(text, applied, name=None):
     return text
 
 
+def rule_R7(text, applied, arg=None):
+    """`for (I, X) in E.iter()[.cloned()].enumerate() {` -> index `while` loop over E (same lines).
+    Element access: `E[I]` by reference for `.iter().enumerate()`, a clone of it for `.iter().cloned()`;
+    arg `indexset` uses `E.get_index(I).unwrap()` (IndexSet iterates in index order).  Refuses bodies
+    containing `continue` or labelled breaks."""
+    cnt = 0
+    while True:
+        m_text = mask(text)
+        m = re.search(r"\bfor\s*\(\s*(\w+)\s*,\s*(\w+)\s*\)\s*in\s+([\w\.]+?)\s*\.\s*iter\(\)\s*(\.\s*cloned\(\)\s*)?\.\s*enumerate\(\)\s*\{", m_text)
+        if not m:
+            break
+        i_name, x_name, coll, cloned = m.group(1), m.group(2), "".join(m.group(3).split()), bool(m.group(4))
+        ob = m.end() - 1
+        cb = match_close(m_text, ob)
+        body = m_text[ob + 1:cb]
+        if re.search(r"\bcontinue\b|\bbreak\s*'", body):
+            raise ExtractError("R7: loop body contains continue / labelled break (outside the subset)")
+        if arg == "indexset" and cloned:
+            acc = f"{coll}.get_index({i_name}).unwrap().clone()"
+        elif cloned:
+            acc = f"{coll}[{i_name}].clone()"
+        else:
+            acc = f"&{coll}[{i_name}]"
+        head = f"let mut {i_name}: usize = 0; while {i_name} < {coll}.len() {{ let {x_name} = {acc};"
+        tail = f" {i_name} += 1; }}"
+        text = text[:m.start()] + _keep_newlines(text[m.start():ob + 1], head) + text[ob + 1:cb] + tail + text[cb + 1:]
+        cnt += 1
+    if cnt:
+        applied.append(f"R7x{cnt}" + (f"({arg})" if arg else ""))
+    return text
+
+
+def rule_R10(text, applied, arg=None):
+    """FnMut callback parameter -> logging sink object: `mut NAME: impl FnMut(..) [-> R]` becomes
+    `NAME: &mut TYPE`, calls `NAME(args)` become `NAME.call(args)`.  arg = NAME=TYPE."""
+    name, ty = arg.split("=")
+    m_text = mask(text)
+    m = re.search(r"\bmut\s+" + re.escape(name) + r"\s*:\s*impl\s+FnMut\s*\(", m_text)
+    if not m:
+        raise ExtractError(f"R10: parameter `mut {name}: impl FnMut(..)` not found (lost anchor)")
+    cp = match_close(m_text, m.end() - 1)
+    k = cp + 1
+    rm = re.match(r"\s*->\s*[\w<>:]+", m_text[k:])
+    if rm:
+        k += rm.end()
+    text = text[:m.start()] + _keep_newlines(text[m.start():k], f"{name}: &mut {ty}") + text[k:]
+    t, n = _sub_masked(text, r"(?<![\w\.])" + re.escape(name) + r"\s*\((?!\s*:)", lambda mm, s_: f"{name}.call(")
+    applied.append(f"R10({name}->{ty})x{n}")
+    return t
+
+
+def rule_R11(text, applied, arg=None):
+    """monomorphisation: type parameter P -> concrete type T inside the item.  arg = P=T."""
+    pname, ty = arg.split("=")
+    t, n = _sub_masked(text, r"\b" + re.escape(pname) + r"\b", lambda m, s_: ty)
+    applied.append(f"R11({pname}={ty})x{n}")
+    return t
+
+
 def rule_const(text, applied):
     """`const fn` -> `fn` (const-ness is irrelevant to behaviour)."""
     t, n = _sub_masked(text, r"\bconst\s+(?=fn\b)", lambda m, s: "")
@@ -456,7 +515,7 @@ def rule_const(text, applied):
 
 RULES = {
     "R1": rule_R1, "R2": rule_R2, "R3": rule_R3, "R4": rule_R4, "R5": rule_R5,
-    "R8max": rule_R8max, "R8cmpmax": rule_R8cmpmax, "R8resize_none": rule_R8resize_none, "R13": rule_R13,
+    "R8max": rule_R8max, "R8cmpmax": rule_R8cmpmax, "R8resize_none": rule_R8resize_none, "R13": rule_R13, "R7": rule_R7, "R10": rule_R10, "R11": rule_R11,
 }
 ALWAYS = [rule_vis, rule_tracing, rule_const]
 
